@@ -30,6 +30,15 @@ def rule_histories(ctx):
     protocol.history_table(ctx, "O8.1", 3 if ctx.thorough else 2)
 
 
+def rule_run_resets(ctx):
+    """O8.5 (round 11): every run of a Reader resets the checks before it looks at the data - also a run over an empty
+    or header-only data set, whose end-of-data checks would otherwise judge the previous data set (C20's run table)."""
+    ctx.res.minimum("O8.5", 3)
+    protocol.reader_rows_table(ctx, "O8.5", {"reset", "window"}, "Reader.rows")
+    protocol.reader_rows_table(ctx, "O8.5", {"reset", "window"}, "rows()")
+    protocol.reader_rows_table(ctx, "O8.5", {"reset", "window"}, "validate()")
+
+
 def rule_reset_complete(ctx):
     from .c05 import rule_cleanup_keeps_bookkeeping, rule_reset_restores_fresh_state
 
@@ -84,4 +93,4 @@ def rule_command_line_reader_per_file(ctx):
 
 from .common import rule_module_state  # noqa: E402
 
-RULES = [rule_histories, rule_reset_complete, rule_no_shared_state, rule_command_line_reader_per_file, rule_module_state]
+RULES = [rule_histories, rule_run_resets, rule_reset_complete, rule_no_shared_state, rule_command_line_reader_per_file, rule_module_state]
